@@ -179,6 +179,7 @@ def run_session(job):
         cur = None                     # index in the reference trace where the machine is stopped
         resume_from = -1               # the machine was released at this index (exclusive lower bound for the next breakpoint stop)
         pause_in_flight = False
+        step_in_flight = False
         pending = "run"
         stopped_by_breakpoint = False
         steps = 0
@@ -188,11 +189,15 @@ def run_session(job):
             if pending == "run" and not pause_in_flight and rng.random() < (0.5 if kind == "race" else 0.15):
                 # a pause arriving at an arbitrary moment of the run loop
                 time.sleep(rng.choice([0, 0.0005, 0.002, 0.01, 0.03]))
-                rp = ses.dap.request("pause", {"threadId": 1})
+                # (a step request that arrives while the machine runs freely ends the run like a pause does)
+                stopper = "pause" if rng.random() < 0.75 else rng.choice(["next", "stepIn", "stepOut"])
+                rp = ses.dap.request(stopper, {"threadId": 1})
                 pause_in_flight = True
-                count("pauses_sent")
+                step_in_flight = stopper != "pause"
+                count("pauses_sent" if stopper == "pause" else "steps_sent_while_running")
+                out["cover"].add("while-running/" + stopper)
                 if not isinstance(rp, dict) or "success" not in rp:
-                    violation("no-response|pause", "pause got no response: %r" % (rp,))
+                    violation("no-response|%s" % stopper, "%s got no response: %r" % (stopper, rp))
                     return out
             if pending == "run" and rng.random() < 0.3:
                 # queries while the machine runs must be answered too
@@ -248,7 +253,11 @@ def run_session(job):
             if pending == "run":
                 ahead = [j for j in range(resume_from + 1, len(trace)) if line_of[trace[j][0]] in bps]
                 first_bp = ahead[0] if ahead else None
-                if pause_in_flight:
+                if pause_in_flight and step_in_flight:
+                    # next/stepOut deliberately ignore breakpoints: where such a step ends when it is requested in mid-run is
+                    # not fixed by the property; the stop itself has been checked above (halted, frame = machine state)
+                    count("stops_after_step_while_running")
+                elif pause_in_flight:
                     if first_bp is not None and i > first_bp:
                         violation("breakpoint-run-over|with-pause", "stopped at trace index %d, but the breakpoint at index %d (line %d) lies before it" % (i, first_bp, line_of[trace[first_bp][0]]))
                         return out
@@ -274,6 +283,7 @@ def run_session(job):
             stopped_by_breakpoint = pending == "run" and not pause_in_flight and line_of[trace[i][0]] in bps
             cur = i
             pause_in_flight = False
+            step_in_flight = False
             # a pause request that is still in flight may produce a second stopped event: drain what is there
             time.sleep(0.002)
             # ---- choose the next action
